@@ -104,6 +104,11 @@ func post(c *ev.Check, outs []*run.Outcome) {
 		{"probe.second_registration_rejected", 30, 300},
 		{"second_restart_same", 80, 1500},
 		{"archive_file_equals_memory", 80, 1500},
+		{"third_restart_same", 80, 1500},
+		{"scale.cases", 30, 100},
+		{"max.reports_file_records", 1100, 1100},
+		{"max.auth_file_records", 443, 443},
+		{"max.stats_file_bytes", 4 << 20, 4 << 20},
 		{"rotation_visible_and_recovered", 5, 100},
 	} {
 		min := q.quick
@@ -140,6 +145,22 @@ func plan(tier string, seed int64) []run.Batch {
 	}
 	for i := 0; i < rndBatches; i++ {
 		add("random", seed*1000+500+int64(i), map[string]string{"kills": fmt.Sprint(rndKills)})
+	}
+	type ep struct {
+		kind string
+		of   int
+	}
+	eps := []ep{{"reports", 4}, {"auths", 2}, {"weeks", 3}}
+	nEps := 1
+	if tier == "thorough" {
+		nEps = 3
+	}
+	for e := 0; e < nEps; e++ {
+		for _, x := range eps {
+			for k := 0; k < x.of; k++ {
+				add("scale", seed*1000+900+int64(e), map[string]string{"kind": x.kind, "slice": fmt.Sprint(k), "of": fmt.Sprint(x.of)})
+			}
+		}
 	}
 	rotBatches, rotKills := 2, 12
 	if tier == "thorough" {
@@ -616,6 +637,125 @@ func genRot(seed int64) (*Script, []int) {
 	return sc, rots
 }
 
+// genScale builds a sequential history at a scale at which bounded in-memory
+// lists and fixed-size read buffers matter. kind "reports": more than 1000
+// accepted reports that stay in the window across a rotation (reports file
+// well beyond 64 KiB); "auths": more than 442 authorization records (most ids
+// banned right away, so few devices are live); "weeks": a history file beyond
+// 4 MiB (about a dozen devices, 14 archived weeks). marks are the operations
+// after which an operation-boundary kill is placed, cenFrom is the operation at
+// which the traced census (and with it the system-call kills) begins, rots are
+// rotations for the kill aimed inside the record write.
+func genScale(kind string, seed int64) (sc *Script, marks []int, cenFrom int, rots []int) {
+	g := newGen(fmt.Sprintf("scale-%s-%d", kind, seed), seed)
+	sc = g.sc
+	capacity := func() uint64 { return uint64(50000 + g.rng.Intn(150000)) }
+	mark := func() { marks = append(marks, g.n-1) }
+	g.seq("start", "start.first", nil, 0)
+	g.seq("register", "register", regBytes(sc.GCA.Pub, sc.Temp.Priv), 0)
+	switch kind {
+	case "reports":
+		for i := 0; i < 6; i++ {
+			g.seq("auth", "auth.new", g.newAuth(capacity(), sc.GCA).Bytes(), 0)
+		}
+		g.seq("clock", "clock", nil, 300)
+		for i := 0; i < 60; i++ {
+			g.seqReport("fresh")
+		}
+		g.seq("clock", "clock", nil, 3000)
+		n := 1100 + g.rng.Intn(700)
+		for i := 0; i < n; i++ {
+			switch x := g.rng.Intn(100); {
+			case x < 2:
+				g.seqReport("equiv")
+			case x < 4:
+				g.seqReport("replay")
+			case x < 5:
+				g.seqReport("overcap")
+			default:
+				g.seqReport("fresh")
+			}
+			if i == 450+int(seed%300) || i == 830+int(seed%150) {
+				mark()
+			}
+		}
+		mark()
+		cenFrom = g.n + 1 // the rotate op (after its clock op)
+		g.seqRotate()
+		mark()
+		for i := 0; i < 5; i++ {
+			g.seqReport("fresh")
+		}
+		g.seq("restart", "restart", nil, 0)
+		mark()
+		for i := 0; i < 5; i++ {
+			g.seqReport("fresh")
+		}
+		g.seqRotate()
+		g.seqReport("fresh")
+	case "auths":
+		for i := 0; i < 5; i++ {
+			g.seq("auth", "auth.new", g.newAuth(capacity(), sc.GCA).Bytes(), 0)
+		}
+		g.seq("clock", "clock", nil, 200)
+		pairs := 222 + g.rng.Intn(40)
+		for i := 0; i < pairs; i++ {
+			a := g.newAuth(capacity(), sc.GCA)
+			g.seq("auth", "auth.new", a.Bytes(), 0)
+			if g.rng.Intn(4) == 0 {
+				if op, ok := g.reportOp("fresh", []uint32{a.ID}, -1); ok {
+					sc.Ops = append(sc.Ops, op)
+				}
+			}
+			a.Debt++
+			g.seq("auth", "auth.conflict.debt", a.Signed(sc.GCA.Priv).Bytes(), 0)
+			if rec := 5 + 2*(i+1); rec == 441 || rec == 443 || rec == 445 {
+				mark()
+			}
+			if g.rng.Intn(10) == 0 {
+				g.seqReport("fresh")
+			}
+		}
+		mark()
+		cenFrom = g.n + 1
+		g.seqRotate()
+		mark()
+		g.seq("restart", "restart", nil, 0)
+		mark()
+		g.seq("auth", "auth.new", g.newAuth(capacity(), sc.GCA).Bytes(), 0)
+		g.seqReport("fresh")
+		g.seqConflict(false)
+	case "weeks":
+		for i := 0; i < 10+g.rng.Intn(3); i++ {
+			g.seq("auth", "auth.new", g.newAuth(capacity(), sc.GCA).Bytes(), 0)
+		}
+		for w := 0; w < 14; w++ {
+			g.seq("clock", "clock", nil, g.m.Offset+100+uint32(g.rng.Intn(200)))
+			for i := 0; i < 5; i++ {
+				g.seqReport([]string{"fresh", "fresh", "fresh", "equiv", "overcap"}[g.rng.Intn(5)])
+			}
+			if w == 13 {
+				cenFrom = g.n + 1
+			}
+			g.seqRotate()
+			if w >= 12 {
+				rots = append(rots, g.n-1)
+				mark()
+			}
+			if w%4 == 2 {
+				g.seq("auth", "auth.new", g.newAuth(capacity(), sc.GCA).Bytes(), 0)
+			}
+			if w == 7 {
+				g.seq("restart", "restart", nil, 0)
+				mark()
+			}
+		}
+		g.seqReport("fresh")
+		g.seq("restart", "restart", nil, 0)
+	}
+	return
+}
+
 // ---------------------------------------------------------------- driver
 
 type driver struct {
@@ -1015,6 +1155,9 @@ func (d *driver) runCase(cs caseSpec) (co caseOut) {
 	if sizes["gcaPubKey.dat"] == 0 {
 		r.Count("disk.gcapubkey_empty", 1)
 	}
+	r.Max("max.reports_file_records", int64(len(disk["equipment-reports.dat"])/80))
+	r.Max("max.auth_file_records", int64(len(disk["equipment-authorizations.dat"])/148))
+	r.Max("max.stats_file_bytes", int64(len(disk["allDeviceStats.dat"])))
 	torn := deriveFromFiles(disk, cs.Sc.Temp.Pub).Torn
 	for n := range torn {
 		r.Count("disk.torn."+n, 1)
@@ -1076,8 +1219,14 @@ func (d *driver) runCase(cs caseSpec) (co caseOut) {
 		"in_flight":         infl,
 		"strace_tail":       tailOf(straceLog, 8),
 	}
-	if len(cs.Sc.Rounds) == 0 {
+	if len(cs.Sc.Rounds) == 0 && len(flat) <= 200 {
 		replay["history"] = flat
+	} else if len(cs.Sc.Rounds) == 0 {
+		kinds := map[string]int{}
+		for _, op := range flat {
+			kinds[op.Tag]++
+		}
+		replay["history_summary"] = kinds // regenerate with the batch's seed and parameters
 	}
 	// A kill that was not placed at a system-call boundary (random-instant
 	// injectors) can land inside a write(2): the kernel keeps the pages copied so
@@ -1120,6 +1269,8 @@ func (d *driver) runCase(cs caseSpec) (co caseOut) {
 				key, what = "restart-failed:", "the server could not be started on the directory the crash left: the process died inside NewGCAServer"
 			case "start2":
 				key, what = "second-restart-failed:", "the second start died"
+			case "start2b":
+				key, what = "third-restart-failed:", "the third consecutive start died"
 			case "start3":
 				key, what = "restart-after-probes-failed:", "the start after the probe operations died"
 			}
@@ -1204,6 +1355,8 @@ func child(b run.Batch, r *ev.Result) {
 		return
 	}
 	d := &driver{b: b, r: r, exe: exe}
+	t0 := time.Now()
+	defer func() { r.Max("max.batch_wall_s."+b.Kind+b.P("kind"), int64(time.Since(t0).Seconds())) }()
 	var h, slice, of int
 	fmt.Sscan(b.P("h"), &h)
 	fmt.Sscan(b.P("slice"), &slice)
@@ -1295,6 +1448,87 @@ func child(b run.Batch, r *ev.Result) {
 		for i := 1; i < kills; i++ {
 			delay := time.Duration(rng.Float64() * 1.02 * float64(span))
 			d.runCase(caseSpec{Mode: "random", Sc: sc, Delay: delay, Procs: 4, Judge: true, Kind: "random"})
+			if r.NumViolations() > 25 {
+				return
+			}
+		}
+	case "scale":
+		sc, marks, cenFrom, rots := genScale(b.P("kind"), b.Seed)
+		flat := sc.flat()
+		type job func()
+		var jobs []job
+		for _, m := range marks {
+			m := m
+			jobs = append(jobs, func() {
+				s := sc.clone()
+				s.PauseAfter = m
+				d.runCase(caseSpec{Mode: "boundary", Sc: s, OpI: m, Kind: "boundary", Judge: true})
+			})
+		}
+		for _, op := range rots {
+			for k := 0; k < 2; k++ {
+				op, delay := op, 20+60*k
+				jobs = append(jobs, func() {
+					s := sc.clone()
+					s.KillInOp, s.PauseAfter, s.KillDelayUs = op, op, delay
+					d.runCase(caseSpec{Mode: "rotkill", Sc: s, OpI: op, Kind: "rotate", Procs: 2, Judge: true, Delay: time.Duration(delay) * time.Microsecond})
+				})
+			}
+		}
+		// census from the first rotation on (tracing the bulk would only cost time)
+		cen := sc.clone()
+		cen.PauseBefore, cen.PauseAfter = cenFrom, flat[len(flat)-1].I
+		co := d.runCase(caseSpec{Mode: "census", Sc: cen, OpI: cen.PauseAfter, Kind: "census", Judge: slice == 0})
+		if co.Census == nil {
+			// no list of system-call boundaries (e.g. the victim's own restart failed):
+			// the operation-boundary and rotation-aimed kills are still delivered
+			r.Inconc("census run of history " + sc.Name + " gave no system-call list")
+		}
+		for _, op := range flat {
+			if op.I < cenFrom || (op.K != "rotate" && op.K != "restart") {
+				continue // single-record operations are enumerated by the ordinary histories
+			}
+			cnt := map[string]int{}
+			var order []string
+			for _, e := range co.Census[op.I] {
+				k := e.Path + "|" + e.Sys
+				if cnt[k] == 0 {
+					order = append(order, k)
+				}
+				cnt[k]++
+			}
+			for _, k := range order {
+				p := strings.SplitN(k, "|", 2)
+				c := cnt[k]
+				if op.K == "restart" && p[0] != "equipment-reports.dat" {
+					continue // read-only opens of the other files
+				}
+				ns := []int{1, c / 2, c} // long runs (re-append of every live report) are sampled
+				seen := map[int]bool{}
+				for _, n := range ns {
+					if n < 1 || n > c || seen[n] {
+						continue
+					}
+					seen[n] = true
+					op, file, sys, n := op, p[0], p[1], n
+					jobs = append(jobs, func() {
+						s := sc.clone()
+						s.PauseBefore, s.PauseAfter = op.I, op.I
+						d.runCase(caseSpec{Mode: "sys", Sc: s, OpI: op.I, Kind: op.K, File: file, Sys: sys, N: n, Judge: true})
+					})
+				}
+			}
+		}
+		if slice == 0 {
+			r.Count("scale.episodes", 1)
+			r.Count("scale.crash_points", int64(len(jobs)))
+		}
+		for i, j := range jobs {
+			if i%of != slice {
+				continue
+			}
+			j()
+			r.Count("scale.cases", 1)
 			if r.NumViolations() > 25 {
 				return
 			}
